@@ -1,5 +1,6 @@
 import TrackpyV.Props.C09
 import TrackpyV.Proofs.LocateGlue
+import TrackpyV.Proofs.LocatePre
 /-!
 # C09 — the compositions: `locateModel` under a shift / a transposition
 
@@ -158,6 +159,143 @@ theorem locateNoPre_shift (P : Params) (hP : P.preprocess = false) (content : Fi
   simp only [hP, Bool.false_eq_true, if_false, Option.bind_some]
   exact locateTail_shift P content cv₁ cv₂ off₁ off₂ raw₁ raw₂ raw₁ raw₂ h₁ h₂
     (ofArray_shift_of_embed content ⟨cv₁, raw₁⟩ ⟨cv₂, raw₂⟩ off₁ off₂ h₁ h₂) hs₁ hs₂ hpct hm₁ hm₂ hc₁ hc₂
+
+/-! ## locate with preprocessing under a shift (2-D) -/
+
+section pre
+open Bandpass
+
+/-- the filtered and converted canvas, in content coordinates: `convert_to_int` (scale from the
+maximum `mx`) of `bandpass` at the position `(y, x)` relative to the content -/
+def workZ (h w : Nat) (content : Array Rat) (s0 s1 : Rat) (k0 k1 : Array Rat) (l0 l1 : Int)
+    (thr : Option Rat) (mx : Rat) (y x : Int) : Nat :=
+  convPixel mx (bpZ h w content s0 s1 k0 k1 l0 l1 thr y x)
+
+/-- **bandpass → convert_to_int of an embedding is an embedding** of the halo-extended content
+`extImg … (workZ … mx)`, `mx` the maximum of the filtered canvas; the filtered canvas itself is `bpZ`
+at the position relative to the content. -/
+theorem work_isEmbed {content : Find.Image} {h w oy ox H W : Nat} {raw : Array Nat}
+    (hsh : content.shape = [h, w]) (e : IsEmbed content [oy, ox] ⟨[H, W], raw⟩)
+    (hs : raw.size = H * W) (s0 s1 : Rat) (k0 k1 : Array Rat) (l0 l1 : Int) (thr : Option Rat)
+    (py : halo s0 k0 l0 ≤ oy ∧ oy + h + halo s0 k0 l0 ≤ H)
+    (pxx : halo s1 k1 l1 ≤ ox ∧ ox + w + halo s1 k1 l1 ≤ W) (out : Array Rat)
+    (hb : bandpass [H, W] (raw.map (fun (v : Nat) => (v : Rat))) [s0, s1] [k0, k1] [l0, l1] thr = .ok out) :
+    out.size = H * W ∧
+    (∀ r c, r < H → c < W → px W out r c =
+      bpZ h w (content.data.map (fun (v : Nat) => (v : Rat))) s0 s1 k0 k1 l0 l1 thr
+        ((r : Int) - oy) ((c : Int) - ox)) ∧
+    IsEmbed (extImg h w (halo s0 k0 l0) (halo s1 k1 l1)
+        (workZ h w (content.data.map (fun (v : Nat) => (v : Rat))) s0 s1 k0 k1 l0 l1 thr (gmax out.toList)))
+      [oy - halo s0 k0 l0, ox - halo s1 k1 l1] ⟨[H, W], (convertToInt out.toList).toArray⟩ := by
+  have eq := isEmbedQ_of_isEmbed hsh e hs
+  have h1y := halo_pos s0 k0 l0
+  have h1x := halo_pos s1 k1 l1
+  have hsz : out.size = H * W := by
+    rw [bandpass_shape _ _ _ _ _ _ _ hb]; simpa using hs
+  have hpx : ∀ r c, r < H → c < W → px W out r c =
+      bpZ h w (content.data.map (fun (v : Nat) => (v : Rat))) s0 s1 k0 k1 l0 l1 thr
+        ((r : Int) - oy) ((c : Int) - ox) := fun r c hr hc =>
+    bandpass_embed_pixel eq (by omega) (by omega) s0 s1 k0 k1 l0 l1 thr out hb hr hc
+  refine ⟨hsz, hpx, ?_⟩
+  apply isEmbed_ext _ (by simp [convertToInt_eq, hsz]) py pxx
+  · intro r c hr hc
+    rw [work_pix H W out hsz r c hr hc, hpx r c hr hc]
+    rfl
+  · intro y x hfar
+    unfold workZ
+    rw [bpZ_far _ _ _ _ _ _ _ _ _ _ _ _ (by omega), convPixel_zero]
+
+/-- the scale of `convert_to_int` is the same for two canvases showing one content -/
+theorem gmax_out_eq {h w oy₁ ox₁ H₁ W₁ oy₂ ox₂ H₂ W₂ hy hx : Nat} {out₁ out₂ : Array Rat}
+    (F : Int → Int → Rat) (h1y : 1 ≤ hy) (h1x : 1 ≤ hx)
+    (hsz₁ : out₁.size = H₁ * W₁) (hsz₂ : out₂.size = H₂ * W₂)
+    (py₁ : hy ≤ oy₁ ∧ oy₁ + h + hy ≤ H₁) (px₁ : hx ≤ ox₁ ∧ ox₁ + w + hx ≤ W₁)
+    (py₂ : hy ≤ oy₂ ∧ oy₂ + h + hy ≤ H₂) (px₂ : hx ≤ ox₂ ∧ ox₂ + w + hx ≤ W₂)
+    (ho₁ : ∀ r c, r < H₁ → c < W₁ → px W₁ out₁ r c = F ((r : Int) - oy₁) ((c : Int) - ox₁))
+    (ho₂ : ∀ r c, r < H₂ → c < W₂ → px W₂ out₂ r c = F ((r : Int) - oy₂) ((c : Int) - ox₂))
+    (hfar : ∀ y x : Int, (y ≤ -(hy : Int) ∨ (h : Int) + hy ≤ y ∨ x ≤ -(hx : Int) ∨ (w : Int) + hx ≤ x) →
+      F y x = 0) :
+    gmax out₁.toList = gmax out₂.toList := by
+  apply gmax_eq_of_mem
+  intro v
+  rw [out_values F hsz₁ h1y h1x py₁ px₁ ho₁ hfar v, out_values F hsz₂ h1y h1x py₂ px₂ ho₂ hfar v]
+
+/-- **locatePre_shift.**  The shift clause for `locateModel` with `preprocess = True`, 2-D: the
+composition bandpass → convert_to_int → grey_dilation → refine_com.  `raw₁`, `raw₂` show `content`
+(`h × w`) at `(oy₁, ox₁)`, `(oy₂, ox₂)` on black canvases.  `halo` is the reach of the filter per axis
+(the larger of kernel and box half-widths, ≥ 1).  If in both canvases the content has `halo` black
+pixels around it, and the halo-extended content a further `margin` and `radius + max_iterations − 1`
+black pixels, and the percentile is ≥ 0, then the whole result on the second canvas — refusal,
+number and order of rows included — is the result on the first with every row moved by the
+difference of the offsets and nothing else changed. -/
+theorem locatePre_shift (P : Params) (hP : P.preprocess = true) (content : Find.Image) (h w : Nat)
+    (hsh : content.shape = [h, w]) (H₁ W₁ H₂ W₂ oy₁ ox₁ oy₂ ox₂ : Nat) (raw₁ raw₂ : Array Nat)
+    (h₁ : IsEmbed content [oy₁, ox₁] ⟨[H₁, W₁], raw₁⟩) (h₂ : IsEmbed content [oy₂, ox₂] ⟨[H₂, W₂], raw₂⟩)
+    (hs₁ : raw₁.size = H₁ * W₁) (hs₂ : raw₂.size = H₂ * W₂)
+    (s0 s1 : Rat) (k0 k1 : Array Rat) (l0 l1 : Int)
+    (hls : P.lshort = [s0, s1]) (hks : P.kernels = [k0, k1]) (hll : P.llong = [l0, l1])
+    (hpct : 0 ≤ P.pct)
+    (hh₁ : padOK [H₁, W₁] [oy₁, ox₁] [h, w] [halo s0 k0 l0, halo s1 k1 l1] = true)
+    (hh₂ : padOK [H₂, W₂] [oy₂, ox₂] [h, w] [halo s0 k0 l0, halo s1 k1 l1] = true)
+    (hm₁ : padOK [H₁, W₁] [oy₁ - halo s0 k0 l0, ox₁ - halo s1 k1 l1]
+      [h + 2 * halo s0 k0 l0, w + 2 * halo s1 k1 l1] P.margin = true)
+    (hm₂ : padOK [H₂, W₂] [oy₂ - halo s0 k0 l0, ox₂ - halo s1 k1 l1]
+      [h + 2 * halo s0 k0 l0, w + 2 * halo s1 k1 l1] P.margin = true)
+    (hc₁ : padOK [H₁, W₁] [oy₁ - halo s0 k0 l0, ox₁ - halo s1 k1 l1]
+      [h + 2 * halo s0 k0 l0, w + 2 * halo s1 k1 l1] (P.radius.map (· + fuelOf P.maxIter)) = true)
+    (hc₂ : padOK [H₂, W₂] [oy₂ - halo s0 k0 l0, ox₂ - halo s1 k1 l1]
+      [h + 2 * halo s0 k0 l0, w + 2 * halo s1 k1 l1] (P.radius.map (· + fuelOf P.maxIter)) = true) :
+    locateModel P [H₂, W₂] raw₂ =
+      (locateModel P [H₁, W₁] raw₁).map
+        (List.map (moveMeasure 2 (disp 2 [oy₁, ox₁] [oy₂, ox₂]))) := by
+  simp only [padOK, Bool.and_eq_true, decide_eq_true_eq, and_true] at hh₁ hh₂
+  have py₁ : halo s0 k0 l0 ≤ oy₁ ∧ oy₁ + h + halo s0 k0 l0 ≤ H₁ := hh₁.1
+  have px₁ : halo s1 k1 l1 ≤ ox₁ ∧ ox₁ + w + halo s1 k1 l1 ≤ W₁ := hh₁.2
+  have py₂ : halo s0 k0 l0 ≤ oy₂ ∧ oy₂ + h + halo s0 k0 l0 ≤ H₂ := hh₂.1
+  have px₂ : halo s1 k1 l1 ≤ ox₂ ∧ ox₂ + w + halo s1 k1 l1 ≤ W₂ := hh₂.2
+  rw [locateModel_eq_tail, locateModel_eq_tail]
+  unfold workImage
+  simp only [hP, if_true, hls, hks, hll]
+  cases hb₁ : bandpass [H₁, W₁] (raw₁.map (fun (v : Nat) => (v : Rat))) [s0, s1] [k0, k1] [l0, l1] P.thr with
+  | error err =>
+    cases hb₂ : bandpass [H₂, W₂] (raw₂.map (fun (v : Nat) => (v : Rat))) [s0, s1] [k0, k1] [l0, l1] P.thr with
+    | error err' => rfl
+    | ok out₂ =>
+      exfalso
+      have acc : Accepts [H₁, W₁] [s0, s1] [k0, k1] [l0, l1] := ((bandpass_ok_iff _ _ _ _ _ _ _).mp hb₂).1
+      have := (bandpass_ok_iff [H₁, W₁] (raw₁.map (fun (v : Nat) => (v : Rat))) [s0, s1] [k0, k1] [l0, l1]
+        P.thr _).mpr ⟨acc, rfl⟩
+      rw [hb₁] at this
+      cases this
+  | ok out₁ =>
+    have acc : Accepts [H₂, W₂] [s0, s1] [k0, k1] [l0, l1] := ((bandpass_ok_iff _ _ _ _ _ _ _).mp hb₁).1
+    have hb₂ := (bandpass_ok_iff [H₂, W₂] (raw₂.map (fun (v : Nat) => (v : Rat))) [s0, s1] [k0, k1] [l0, l1]
+        P.thr _).mpr ⟨acc, rfl⟩
+    rw [hb₂]
+    simp only [Option.bind_some]
+    obtain ⟨hsz₁, ho₁, he₁⟩ := work_isEmbed hsh h₁ hs₁ s0 s1 k0 k1 l0 l1 P.thr py₁ px₁ out₁ hb₁
+    obtain ⟨hsz₂, ho₂, he₂⟩ := work_isEmbed hsh h₂ hs₂ s0 s1 k0 k1 l0 l1 P.thr py₂ px₂ _ hb₂
+    have hmx := gmax_out_eq (bpZ h w (content.data.map (fun (v : Nat) => (v : Rat))) s0 s1 k0 k1 l0 l1 P.thr)
+      (halo_pos s0 k0 l0) (halo_pos s1 k1 l1) hsz₁ hsz₂ py₁ px₁ py₂ px₂ ho₁ ho₂
+      (fun y x hf => bpZ_far _ _ _ _ _ _ _ _ _ _ _ _ hf)
+    rw [← hmx] at he₂
+    have hd : disp 2 [oy₁ - halo s0 k0 l0, ox₁ - halo s1 k1 l1] [oy₂ - halo s0 k0 l0, ox₂ - halo s1 k1 l1]
+        = disp 2 [oy₁, ox₁] [oy₂, ox₂] := by
+      simp only [disp, List.range_succ, List.range_zero, List.nil_append, List.cons_append, List.map_cons,
+        List.map_nil, List.getD_cons_zero, List.getD_cons_succ]
+      congr 1
+      · omega
+      · congr 1; omega
+    have hraw := ofArray_shift_of_embed content ⟨[H₁, W₁], raw₁⟩ ⟨[H₂, W₂], raw₂⟩ _ _ h₁ h₂
+    rw [hsh] at hraw
+    change AgreeN 2 (ofArray [H₂, W₂] raw₂)
+      (shiftImg 2 (disp 2 [oy₁, ox₁] [oy₂, ox₂]) (ofArray [H₁, W₁] raw₁)) at hraw
+    rw [← hd]
+    rw [← hd] at hraw
+    exact locateTail_shift P _ [H₁, W₁] [H₂, W₂] _ _ _ _ raw₁ raw₂ he₁ he₂ hraw
+      (by simp [convertToInt_eq, hsz₁]) (by simp [convertToInt_eq, hs₂]) hpct hm₁ hm₂ hc₁ hc₂
+
+end pre
 
 /-! ## the `np.where` order of the maxima under a shift -/
 
